@@ -453,9 +453,19 @@ def install(it):
     def b_sorted(it, args, kw):
         items = []
         it.iterate(args[0], items.append)
-        if any(smt.is_z3(x) for x in items) or kw:
+        key, reverse = kw.get('key'), kw.get('reverse', False)
+        if set(kw) - {'key', 'reverse'} or smt.is_z3(reverse):
+            raise Unsupported('sorted with %r' % (sorted(kw),))
+        keys = [it.call(key, [x], {}) for x in items] if key is not None else list(items)
+
+        def concrete(v):
+            if isinstance(v, tuple):
+                return all(concrete(e) for e in v)
+            return isinstance(v, (int, str, bytes, float)) and not smt.is_z3(v)
+        if not all(concrete(k) for k in keys):
             raise Unsupported('sorted on symbolic values')
-        return ListVal(sorted(items))
+        order = sorted(range(len(items)), key=lambda i: keys[i], reverse=bool(reverse))   # stable, like list.sort
+        return ListVal([items[i] for i in order])
     bi['sorted'] = Builtin('sorted', b_sorted)
 
     def b_abs(it, args, kw):
